@@ -19,6 +19,8 @@ def _admissible(steps):
             j = st["same_answer_as"]
             if not (0 <= j < i):
                 return False
+        if "expect" in st and not (0 <= st["expect"]["ref"] < i):
+            return False
     return True
 
 
@@ -36,6 +38,13 @@ def _renumber(steps, kept_indices):
                 st["needs"] = [pos[n] for n in st.get("needs", [])]
             else:
                 # the expectation only holds with the whole inverse pair in place
+                return None
+        if "expect" in st:
+            needs = [st["expect"]["ref"]] + list(st.get("needs", []))
+            if all(n in pos for n in needs):
+                st["expect"] = dict(st["expect"], ref=pos[st["expect"]["ref"]])
+                st["needs"] = [pos[n] for n in st.get("needs", [])]
+            else:
                 return None
         out.append(st)
     return out
